@@ -32,6 +32,9 @@ held to the rules; the partition rule reads what the spliced list collects.
 Round 5: (b') sync hooks on the same side of the try in both drivers; (a') no statement hole
 besides the field blocks and the sync calls, and none whose generator emits raise / return;
 (d'') struct-code owners; the install step validates a reloaded module's cookie (C15-V).
+
+Round 6: text glued to a block template before formatting; the generated sync calls are indexed
+as get_sync_*_methods() returns them (C17-c).
 """
 import ast
 
